@@ -19,7 +19,7 @@ import (
 // C18 — options act only on their own aspect, in any order, on every Evaluate.
 
 const c18Rule = "option lists over {WithTagName(bexpr|alt), WithHookFn(identity|unwrap|constant|unwrap+upper-casing strings|nil), WithUnknownValue(v), WithMaxExpressions(0|>=N|small)} with repeats, nil options " +
-	"and all permutations; structs tagged under both tag names, map values wrapped in the hook's wrapper struct; several Evaluate calls per evaluator, the caller overwriting and re-using its option slice (spread into CreateEvaluator) between them; oracles: " +
+	"and all permutations; structs tagged under both tag names, map values wrapped in the hook's wrapper struct; several Evaluate calls per evaluator, the caller overwriting and re-using its option slice (spread into CreateEvaluator) between them, and its Option values also passed to other CreateEvaluator calls before and after overriding options; oracles: " +
 	"permutations agree, last of repeated options wins, neutral settings equal their absence, the unwrap hook makes wrapped documents behave as unwrapped ones and agrees " +
 	"with the reference interpreter applying the hook after every step, later calls equal the first; non-trivial = >= 2 distinct non-neutral options whose aspect the " +
 	"expression exercises; distinct by (expression, datum dump, option list)"
@@ -237,6 +237,21 @@ func c18Check(t failer, c *c18Case) (ref.Set, int) {
 		if got != base {
 			violation(t, "C18", "TestC18_Options", c, "option order matters: %v gives %v, %v gives %v\n expr: %s\n datum: %s", c.Specs, base, ps, got, c.TextQ, c.Datum)
 		}
+	}
+	// Option VALUES are the caller's too: a default option kept in a variable is passed to many CreateEvaluator
+	// calls, alone and followed by overriding options; it keeps meaning what it meant
+	shared := toOptions(c.Specs)
+	b1 := c18Eval(t, c, text, shared, d)
+	over := append(append([]bexpr.Option(nil), shared...), bexpr.WithUnknownValue("override"), bexpr.WithTagName("other"), bexpr.WithHookFn(constHook), bexpr.WithMaxExpressions(0))
+	if ev, err := bexpr.CreateEvaluator(text, over...); err == nil {
+		safeEvaluate(ev, d)
+	}
+	under := append([]bexpr.Option{bexpr.WithUnknownValue("underride"), bexpr.WithTagName("other"), bexpr.WithHookFn(constHook), bexpr.WithMaxExpressions(1)}, shared...)
+	if ev, err := bexpr.CreateEvaluator(text, under...); err == nil {
+		safeEvaluate(ev, d)
+	}
+	if b2 := c18Eval(t, c, text, shared, d); b1 != base || b2 != base {
+		violation(t, "C18", "TestC18_Options", c, "the same option values %v give %v, then %v after they were also passed to other CreateEvaluator calls together with overriding options; fresh option values give %v\n expr: %s\n datum: %s", c.Specs, b1, b2, base, c.TextQ, c.Datum)
 	}
 	if budgetFails {
 		return 0, nperm
